@@ -151,3 +151,70 @@ Print Assumptions C17_whole_request_action.
 Print Assumptions C17_whole_request.
 Print Assumptions C17_whole_request_reply_pages_dirty.
 Print Assumptions C17_whole_request_other_pages_clean.
+
+(* ================= chains as the driver's tables describe them =================
+   (Model/TransportEnv.v part 2: INDIRECT tables, loops cut by the queue size, any queue size, any number of guest
+   memory regions, chains cut before 2^32 bytes).  If Reader::from_descriptor_chain and VirtioFsWriter::new accept
+   what virtio-queue's iterator yields, then for any initial dirty log and any run (async operations included):
+   every modified byte lies in a marked page, and a newly marked page holds an address of a writable descriptor. *)
+From FB Require Import Model.TransportEnv Proofs.TransportEnv.
+Theorem C17_vq_written_marked : forall seed regions t table qsize head r st0 dirty0 ops,
+  v_init_vq seed regions t table qsize head = (r, st0) ->
+  let st := mkv (v_mem st0) dirty0 (v_rd st0) (v_wr st0) in
+  forall a, mget (v_mem (snd (avrun ops st))) a <> mget (v_mem st) a -> v_dirty (snd (avrun ops st)) (a / PS) = true.
+Proof. exact vq_written_marked. Qed.
+Theorem C17_vq_only_written : forall seed regions t table qsize head r st0 dirty0 ops,
+  v_init_vq seed regions t table qsize head = (r, st0) ->
+  let st := mkv (v_mem st0) dirty0 (v_rd st0) (v_wr st0) in
+  forall p, v_dirty (snd (avrun ops st)) p = true -> dirty0 p = true \/
+    exists a b, a / PS = p /\ In b (v_wr st0) /\ In a (flat (segs b)).
+Proof. exact vq_only_written. Qed.
+(* non-vacuity: the writable descriptor sits in an INDIRECT table and straddles a page border; writing 3 bytes marks
+   pages 256 and 257 and nothing else *)
+Example C17_vq_nonvacuous :
+  let regs := [(1048576, 16384)] in
+  let t := [(0, mkrd 1048576 8 true false false 1); (16, mkrd 512 16 false false true 0); (512, mkrd 1052670 6 false true false 0)] in
+  exists st0, v_init_vq 3 regs t 0 16 0 = (ROk 0 [], st0) /\
+    let st' := snd (avrun [ASync (WWrite 0 [1; 2; 3])] st0) in
+    map (v_dirty st') [255; 256; 257; 258] = [false; true; true; false] /\ mget (v_mem st') 1052672 = 3.
+Proof. cbn zeta. eexists. split; [vm_compute; reflexivity|]. split; vm_compute; reflexivity. Qed.
+Print Assumptions C17_vq_written_marked.
+Print Assumptions C17_vq_only_written.
+
+(* ================= operations that fail after they have placed bytes (round 6, seed C17f) =================
+   VirtioFsWriter::write_all_from over a source that answers call by call (Model/TransportEnv.v part 4: data -- of
+   which a prefix is placed --, an error, ErrorKind::Interrupted; end of file behind the script).  The loop is the run of
+   the write_from calls it makes, so everything above holds for it whatever it returns: bytes placed by earlier
+   rounds stay placed AND marked when a later round fails or the source runs dry. *)
+From FB Require Import Proofs.TransportScript.
+Theorem C17_scripted_as_run : forall xs st, wf_st st -> exists ops, snd (srun xs st) = snd (vrun ops st).
+Proof. exact srun_as_run. Qed.
+Theorem C17_failed_op_marks_what_it_wrote : forall count script m d b, wf_io b ->
+  let '(r, m', d', b') := vw_write_all_from_s count script m d b in
+  (forall a, mget m' a <> mget m a -> d' (a / PS) = true) /\
+  (forall p, d' p = true -> d p = true \/ exists a, a / PS = p /\ In a (flat (segs b))) /\ wf_io b'.
+Proof. exact failed_op_marks_what_it_wrote. Qed.
+Theorem C17_scripted_written_marked : forall xs st, wf_st st ->
+  forall a, mget (v_mem (snd (srun xs st))) a <> mget (v_mem st) a -> v_dirty (snd (srun xs st)) (a / PS) = true.
+Proof. exact scripted_written_marked. Qed.
+Theorem C17_scripted_only_consumed_marked : forall xs st, wf_st st -> NoDup (live (v_wr st)) ->
+  forall p, v_dirty (snd (srun xs st)) p = true -> v_dirty st p = true \/
+    exists a, a / PS = p /\ In a (live (v_wr st)) /\ ~ In a (live (v_wr (snd (srun xs st)))).
+Proof. exact scripted_only_consumed_marked. Qed.
+(* non-vacuity: three writable descriptors (the first ends on a page border, the second lies two pages further);
+   write_all_from(12) gets 4 bytes, is interrupted, gets 3 bytes, then the source fails: the operation returns the
+   file error, 7 bytes are in guest memory (first descriptor full, second partly, third untouched) and exactly their
+   pages 256 and 258 are marked; with a source that runs dry instead: WriteZero, the same marks *)
+Example C17_failed_op_nonvacuous :
+  let b := mkio [mkseg 1052668 4; mkseg 1056800 5; mkseg 1064960 3] 0 in
+  wf_io b /\
+  (let '(r, m', d', b') := vw_write_all_from_s 12 [SGive [1; 2; 3; 4]; SIntr; SGive [5; 6; 7]; SFail; SGive [8; 9]] (mem_init 0) dirty_none b in
+   r = RErr EFile /\ map (mget m') [1052671; 1056800; 1056802; 1056803] = [4; 5; 7; mget (mem_init 0) 1056803] /\
+   map d' [256; 257; 258; 259; 260] = [true; false; true; false; false] /\ consumed b' = 7) /\
+  (let '(r, m', d', b') := vw_write_all_from_s 12 [SGive [1; 2; 3; 4; 5; 6; 7]] (mem_init 0) dirty_none b in
+   r = RErr EEof /\ map d' [256; 257; 258; 259; 260] = [true; false; true; false; false] /\ consumed b' = 7).
+Proof. cbn zeta. split; [apply wf_io_b; vm_compute; reflexivity|]. split; vm_compute; repeat split; reflexivity. Qed.
+Print Assumptions C17_scripted_as_run.
+Print Assumptions C17_failed_op_marks_what_it_wrote.
+Print Assumptions C17_scripted_written_marked.
+Print Assumptions C17_scripted_only_consumed_marked.
